@@ -253,7 +253,17 @@ func genConcW(r *rand.Rand, mode int64, tags map[string]bool) []hx.T {
 
 func genMalformed(r *rand.Rand, tags map[string]bool) []hx.T {
 	tags["malformed"] = true
-	switch r.Intn(5) {
+	switch r.Intn(10) {
+	case 5:
+		return []hx.T{hx.C("OSetId", two32+int64(r.Intn(3))), hx.C("OPost", 0, "KOk"), hx.C("OStep")}
+	case 6:
+		return []hx.T{hx.C("OSetId", int64(-1)), hx.C("OPost", 0, "KOk")}
+	case 7: // ids of scripted tasks are not determined next to a concurrent block
+		return []hx.T{hx.C("OSetId", two32-2), hx.C("OPost", 0, "KOk"), hx.C("OConcN", 0, 2, 3), hx.C("OStep")}
+	case 8:
+		return []hx.T{hx.C("OList", 0, []any{behAlphabet(1)[0]}), hx.C("OShare", 0, 0, int64(4+r.Intn(2)))}
+	case 9: // a task of a concurrent shared block that never completes
+		return []hx.T{hx.C("OConcS", 0, 2, 2, []any{behAlphabet(1)[4]})}
 	case 0:
 		return []hx.T{hx.C("OPost", int64(nPosters+r.Intn(3)), "KOk"), hx.C("OStep")}
 	case 1:
@@ -342,6 +352,213 @@ func enumMgr(L int, emit func([]hx.T)) {
 	rec(0)
 }
 
+const two32 = int64(1) << 32
+
+func countPosts(ops []hx.T) int {
+	n := 0
+	for _, o := range ops {
+		switch o.Name {
+		case "OPost":
+			n++
+		case "OPostN":
+			n += int(o.Int(1))
+		}
+	}
+	return n
+}
+
+// withId puts "the counter is j Posts before the wrap" in front: the j-th Post gets id 0
+func withId(j int64, ops []hx.T) []hx.T {
+	return append([]hx.T{hx.C("OSetId", (two32-j)%two32)}, ops...)
+}
+
+// a task that completes exactly once and returns (OConcS blocks)
+func settlingBeh(r *rand.Rand, v int64, tags map[string]bool) hx.T {
+	res := []int64{v, v + int64(r.Intn(3))}[:1+r.Intn(2)]
+	switch p := r.Intn(100); {
+	case p < 45:
+		tags["sync-ok"] = true
+		return behT([]any{hx.Pair{A: false, B: hx.Norm(res)}}, nil, false)
+	case p < 55:
+		tags["sync-err"] = true
+		return behT([]any{hx.Pair{A: true, B: hx.Norm(res)}}, nil, false)
+	case p < 90:
+		tags["later-ok"] = true
+		return behT(nil, []any{hx.Pair{A: false, B: hx.Norm(res)}}, false)
+	default:
+		tags["later-err"] = true
+		return behT(nil, []any{hx.Pair{A: true, B: hx.Norm(res)}}, false)
+	}
+}
+
+func genConcS(r *rand.Rand, mode int64, tags map[string]bool) []hx.T {
+	n := r.Intn(6)
+	tasks := make([]any, n)
+	for i := range tasks {
+		tasks[i] = settlingBeh(r, int64(10*(i+1)), tags)
+	}
+	tags["shared-list"] = true
+	return []hx.T{hx.C("OConcS", mode, int64(1+r.Intn(4)), int64(1+r.Intn(6)), tasks)}
+}
+
+// drive every chain in cs (all over a list of L tasks) to completion: consumer steps, then the
+// environment completes every task of every chain (a no-op unless it is waiting)
+func driveShared(ops []hx.T, cs []int64, L int) []hx.T {
+	for round := 0; round <= L+1; round++ {
+		for range cs {
+			ops = append(ops, hx.C("OStep"), hx.C("OStep"))
+		}
+		for _, c := range cs {
+			for i := 0; i < L; i++ {
+				ops = append(ops, hx.C("OFire", c, int64(i), 0))
+			}
+		}
+	}
+	return ops
+}
+
+var sharedPairs = [][2]int64{{2, 2}, {3, 3}, {2, 0}, {0, 2}, {3, 0}, {0, 3}, {2, 3}, {3, 2}, {1, 2}, {3, 1}}
+
+// every task list of length L over the 7-behaviour alphabet, defined ONCE and used for several
+// chains: one after the other (the second starts when the first is done) and overlapped (both
+// started, then driven together), under the same and under different runners
+func enumShared(L int, emit func(string, []hx.T, []string)) {
+	idx := make([]int, L)
+	serial := 0
+	var rec func(d int)
+	rec = func(d int) {
+		if d == L {
+			tasks := make([]any, L)
+			tg := map[string]bool{"shared-list": true}
+			for i, k := range idx {
+				tasks[i] = behAlphabet(int64(10 * (i + 1)))[k]
+				tg[behNames[k]] = true
+			}
+			decl := hx.C("OList", 0, tasks)
+			seq := func(ra, rb int64) []hx.T {
+				ops := []hx.T{decl, hx.C("OShare", 0, 0, ra), hx.C("OPost", 0, "KOk")}
+				ops = driveShared(ops, []int64{0}, L)
+				ops = append(ops, hx.C("OShare", 1, 0, rb))
+				ops = driveShared(ops, []int64{1}, L)
+				ops = append(ops, hx.C("OShare", 2, 0, ra))
+				return driveShared(ops, []int64{2}, L)
+			}
+			over := func(ra, rb int64) []hx.T {
+				ops := []hx.T{decl, hx.C("OShare", 0, 0, ra), hx.C("OShare", 1, 0, rb), hx.C("OPost", 0, "KOk")}
+				return driveShared(ops, []int64{0, 1}, L)
+			}
+			pr := sharedPairs[serial%len(sharedPairs)]
+			serial++
+			emit("sequential", seq(0, 0), tagList(tg))
+			emit("sequential", seq(1, 1), tagList(tg))
+			emit("sequential", seq(pr[0], pr[1]), tagList(tg))
+			emit("overlapped", over(0, 0), tagList(tg))
+			emit("overlapped", over(1, 0), tagList(tg))
+			return
+		}
+		for k := range behNames {
+			idx[d] = k
+			rec(d + 1)
+		}
+	}
+	rec(0)
+}
+
+// random script over shared task lists: 1-2 lists, 2-5 chains under random runners started at
+// random moments, steps / completions / plain closures in between, usually completed at the end
+func genShared(r *rand.Rand, tags map[string]bool) []hx.T {
+	tags["shared-list"] = true
+	nl := 1 + r.Intn(2)
+	lists := make([][]any, nl)
+	var ops []hx.T
+	for l := range lists {
+		lists[l] = randChain(r, 4, r.Intn(6) == 0, tags)
+		ops = append(ops, hx.C("OList", int64(l), lists[l]))
+	}
+	nch := 2 + r.Intn(4)
+	type lk struct{ c, i int64 }
+	var laters []lk
+	started := 0
+	start := func() {
+		l := r.Intn(nl)
+		c := int64(started)
+		started++
+		k := int64(r.Intn(4))
+		if r.Intn(2) == 0 {
+			k = int64(r.Intn(2)) // mostly the scheduler variants
+		}
+		ops = append(ops, hx.C("OShare", c, int64(l), k))
+		for i, t := range lists[l] {
+			if len(t.(hx.T).Args[1].([]any)) > 0 {
+				laters = append(laters, lk{c, int64(i)})
+			}
+		}
+	}
+	start()
+	n := 6 + r.Intn(40)
+	stopAt := -1
+	if r.Intn(10) == 0 {
+		stopAt = r.Intn(n)
+		tags["stop"] = true
+	}
+	for i := 0; i < n; i++ {
+		if i == stopAt {
+			ops = append(ops, hx.C("OStop"))
+			continue
+		}
+		switch p := r.Intn(100); {
+		case p < 50:
+			ops = append(ops, hx.C("OStep"))
+		case p < 75 && len(laters) > 0:
+			l := laters[r.Intn(len(laters))]
+			ops = append(ops, hx.C("OFire", l.c, l.i, int64(r.Intn(5)/4)))
+		case p < 88 && started < nch:
+			start()
+		case p < 94:
+			ops = append(ops, hx.C("OPost", int64(r.Intn(2)), kind(r, tags)))
+		case p < 97:
+			// a chain over a list of its own in between: it must not be disturbed either
+			ops = append(ops, hx.C("OChain", int64(100+i), randChain(r, 3, false, tags)))
+		default:
+			ops = append(ops, hx.C("OShare", int64(r.Intn(nch)), int64(r.Intn(nl+1)), int64(r.Intn(4))))
+		}
+	}
+	for started < nch {
+		start()
+	}
+	if r.Intn(5) > 0 {
+		for round := 0; round < 7; round++ {
+			for _, l := range laters {
+				ops = append(ops, hx.C("OFire", l.c, l.i, int64(0)))
+			}
+			for c := 0; c < nch; c++ {
+				ops = append(ops, hx.C("OStep"))
+			}
+		}
+		tags["all-fired"] = true
+	}
+	return ops
+}
+
+// put an OSetId somewhere into a random script: mostly a few Posts before the wrap, sometimes 0
+func injectId(r *rand.Rand, ops []hx.T, tags map[string]bool) []hx.T {
+	tags["id-tracked"] = true
+	v := two32 - 1 - int64(r.Intn(24))
+	switch r.Intn(8) {
+	case 0:
+		v = 0
+	case 1:
+		v = int64(r.Intn(5))
+	}
+	at := 0
+	if r.Intn(3) == 0 {
+		at = r.Intn(len(ops) + 1)
+	}
+	out := append([]hx.T{}, ops[:at]...)
+	out = append(out, hx.C("OSetId", v))
+	return append(out, ops[at:]...)
+}
+
 func tagList(m map[string]bool) []string {
 	var tl []string
 	for t := range m {
@@ -400,6 +617,83 @@ func Run(cfg *hx.Config) error {
 			emit(fmt.Sprintf("exhaustive-registry-%d", L), ops, map[string]bool{"registry": true})
 		})
 	}
+	// ---- shared task lists
+	for L := 0; L <= cdepth; L++ {
+		enumShared(L, func(how string, ops []hx.T, tl []string) {
+			tg := map[string]bool{"shared-" + how: true}
+			for _, t := range tl {
+				tg[t] = true
+			}
+			emit(fmt.Sprintf("exhaustive-shared-%d", L), ops, tg)
+		})
+	}
+	// ---- task ids: the process-wide counter positioned so that the j-th Post of the script
+	// gets id 0 (the uint32 wrap), for every j, and at 0
+	idDepth := 3
+	if thorough {
+		idDepth = 4
+	}
+	for L := 1; L <= idDepth; L++ {
+		enumSched(L, func(ops []hx.T) {
+			for j := 1; j <= countPosts(ops); j++ {
+				emit(fmt.Sprintf("exhaustive-sched-idwrap-%d", L), withId(int64(j), ops), map[string]bool{"id-tracked": true})
+			}
+		})
+	}
+	serial := 0
+	for L := 0; L <= cdepth; L++ {
+		enumChains(L, func(ops []hx.T, tl []string) {
+			// only the runners that post to the scheduler; every Post of the script in turn gets id 0
+			// (quick: the two runners alternate)
+			if ops[0].Name != "OChain" && ops[0].Name != "OChainB" {
+				return
+			}
+			serial++
+			if !thorough && (ops[0].Name == "OChain") != (serial/2%2 == 0) {
+				return
+			}
+			for j := 1; j <= L+2; j++ {
+				tg := map[string]bool{"id-tracked": true}
+				for _, t := range tl {
+					tg[t] = true
+				}
+				emit(fmt.Sprintf("exhaustive-chain-idwrap-%d", L), withId(int64(j), ops), tg)
+			}
+		})
+	}
+	emit("id-at-zero", []hx.T{hx.C("OSetId", 0), hx.C("OPostN", 0, 5), hx.C("OStep"), hx.C("OSetId", two32-1), hx.C("OPostN", 1, 3)},
+		map[string]bool{"id-tracked": true})
+	for mode := int64(0); mode < 4; mode++ {
+		// one poster, every position of the wrap (the gated modes post their gate closure first)
+		for j := int64(1); j <= 5; j++ {
+			emit("concurrent-posters-idwrap", withId(j, []hx.T{hx.C("OConc", mode, []any{[]any{"KOk", "KOk", "KOk", "KOk"}})}),
+				map[string]bool{"id-tracked": true})
+		}
+	}
+	for mode := int64(0); mode < 4; mode++ {
+		for _, off := range []int64{1, 8, 200} {
+			// concurrent posters on every consumer loop, the wrap falls among their Posts
+			emit("concurrent-posters-idwrap", withId(off, []hx.T{hx.C("OConcN", mode, 8, 50)}), map[string]bool{"id-tracked": true})
+		}
+		tg := map[string]bool{"id-tracked": true}
+		emit("concurrent-posters-idwrap", withId(3, genConc(r, mode, 6, 30, tg)), tg)
+		emit("burst-idwrap", withId(capQ+1+mode, burst(mode, capQ+200)), map[string]bool{"id-tracked": true, "burst": true})
+	}
+	for i := 0; i < 6; i++ {
+		tg := map[string]bool{"id-tracked": true}
+		emit("concurrent-chains-idwrap", withId(int64(1+i), genConcW(r, int64(i%2), tg)), tg)
+		tg = map[string]bool{"id-tracked": true}
+		emit("shared-concurrent-idwrap", withId(int64(1+2*i), genConcS(r, int64(i%2), tg)), tg)
+	}
+	emit("registry-race-idwrap", withId(100, []hx.T{hx.C("OConcReg", 40, 8)}), map[string]bool{"id-tracked": true})
+	nShared := 10
+	if thorough {
+		nShared = 100
+	}
+	for i := 0; i < nShared; i++ {
+		tg := map[string]bool{}
+		emit("shared-concurrent", genConcS(r, int64(i%2), tg), tg)
+	}
 	// deterministic burst: consumer gated, one goroutine posts capacity+200 closures
 	emit("burst", burst(1, capQ+200), map[string]bool{"burst": true})
 	emit("burst", burst(3, capQ+200), map[string]bool{"burst": true})
@@ -417,7 +711,13 @@ func Run(cfg *hx.Config) error {
 	}
 	for i := 0; i < nFull; i++ {
 		tg := map[string]bool{}
-		emit("near-capacity", genFull(r, tg), tg)
+		ops := genFull(r, tg)
+		if i%2 == 1 {
+			// the wrap falls around the moment the queue is full: a blocked poster holds id 0
+			tg["id-tracked"] = true
+			ops = withId(ops[0].Int(1)-2+int64(r.Intn(6)), ops)
+		}
+		emit("near-capacity", ops, tg)
 	}
 	for i := 0; i < nConc; i++ {
 		tg := map[string]bool{}
@@ -438,13 +738,21 @@ func Run(cfg *hx.Config) error {
 	}
 	for i := 0; i < cfg.N; i++ {
 		tg := map[string]bool{}
+		idw := func(ops []hx.T) []hx.T {
+			if i%3 == 1 {
+				return injectId(r, ops, tg)
+			}
+			return ops
+		}
 		switch {
 		case i%25 == 24:
 			emit("malformed", genMalformed(r, tg), tg)
 		case i%2 == 0:
-			emit("random-sched", genSched(r, tg), tg)
+			emit("random-sched", idw(genSched(r, tg)), tg)
+		case i%4 == 1:
+			emit("random-chains", idw(genChains(r, tg)), tg)
 		default:
-			emit("random-chains", genChains(r, tg), tg)
+			emit("random-shared", idw(genShared(r, tg)), tg)
 		}
 	}
 	return nil
